@@ -110,7 +110,7 @@ class Gen:
         if val and r.random() < 0.7:
             i = r.randrange(len(val))
             return val[i:i + r.randrange(1, maxlen + 1)]
-        return self.cdata(r.randrange(0, maxlen + 1))
+        return self.cdata(r.randrange(0 if r.random() < 0.25 else 1, maxlen + 1))
 
     def emit(self, line, label):
         self.ops.append(line)
@@ -301,7 +301,7 @@ class Gen:
             sh.vars[v].val = bytes(f(y) for y in x.val)
             self.emit('%s %d' % (what, v), what + '/' + lab)
         elif what == 'reps':
-            nd = self.pick(lambda i: 0 not in sh.vars[i].val and (len(sh.vars[i].val) <= 3 or r.random() < 0.2))
+            nd = self.pick(lambda i: 0 not in sh.vars[i].val and (0 < len(sh.vars[i].val) <= 3 or r.random() < 0.12))
             if nd is None or not self.nulfree(v):
                 if full or not self.nulfree(v): return self.step()
                 d = self.piece_of(v)
